@@ -27,7 +27,7 @@ type stopScenario struct {
 	cancelBeforeError bool
 }
 
-var stopCauses = []string{"eof", "err", "close", "reset", "short", "outofseq", "cancel-idle", "cancel-handler", "handler-err", "handler-err-cancel", "invalid", "unsupported", "mapper-err", "connect-fail"}
+var stopCauses = []string{"eof", "err", "close", "reset", "short", "outofseq", "cancel-idle", "cancel-handler", "handler-err", "handler-err-cancel", "invalid", "unsupported", "unknown-table", "mapper-err", "connect-fail"}
 
 // runTermination covers C05 (termination, nothing left behind, Error() never blocks, handler scope) and
 // C06 (the reason is reported): every stop cause x stop point x reader blocking state x handler speed.
@@ -110,12 +110,18 @@ func runStopScenario(c *Ctx, prop string, h *history, evs [][]byte, idx []int, f
 		if !sc.ahead {
 			a.events = evs[:cut]
 		}
-	case "invalid", "unsupported":
+	case "invalid", "unsupported", "unknown-table":
 		var bad []byte
-		if sc.cause == "invalid" {
+		switch sc.cause {
+		case "invalid":
 			bad = append([]byte{}, evs[2][:10]...)
-		} else {
+		case "unsupported":
 			bad = rawEvent(c, h.cfg, 29, []byte{1, 'x'})
+		default:
+			bad = unknownTableRows(c, h)
+			if bad == nil {
+				return
+			}
 		}
 		pre := cutAfterTx(sc.atTx - 1)
 		a.events = append(append(append([][]byte{}, evs[:pre]...), bad), evs[pre:]...)
@@ -171,7 +177,7 @@ func runStopScenario(c *Ctx, prop string, h *history, evs [][]byte, idx []int, f
 		}
 		// a.events is a prefix of evs, possibly with one injected packet
 		inj := -1
-		if sc.cause == "invalid" || sc.cause == "unsupported" {
+		if sc.cause == "invalid" || sc.cause == "unsupported" || sc.cause == "unknown-table" {
 			inj = cutAfterTx(sc.atTx - 1)
 		}
 		for i := range a.events {
@@ -300,7 +306,7 @@ func runStopScenario(c *Ctx, prop string, h *history, evs [][]byte, idx []int, f
 		add("spec", "termination: handler called concurrently or after Stream returned", "", fmt.Sprintf("overlap=%v afterReturn=%v", res.overlap, res.afterReturn))
 	}
 	// ---- C06 ----
-	mustFail := map[string]bool{"handler-err": true, "handler-err-cancel": true, "invalid": true, "unsupported": true, "mapper-err": true, "connect-fail": true}
+	mustFail := map[string]bool{"handler-err": true, "handler-err-cancel": true, "invalid": true, "unsupported": true, "unknown-table": true, "mapper-err": true, "connect-fail": true}
 	if mustFail[sc.cause] && res.streamErr == nil {
 		add("spec", "reporting: Stream returned nil after "+sc.cause, "non-nil error", "nil")
 	}
@@ -638,6 +644,21 @@ func genAliasHistory(r *vh.Rng, cfg Cfg, big int) *history {
 		mk(sym("geo", 2), "geometry", func(r *vh.Rng) vh.Val { return randBytesVal(r, 25) })
 		mk(sym("long"), "long", func(r *vh.Rng) vh.Val { return sym("int", int64(r.Intn(1000))) })
 		mk(sym("json", 4), "json", func(r *vh.Rng) vh.Val { return jsonCellVal(r, 4) }) // rendered into a fresh buffer: must not be shared or recycled
+		// every other type too, with small value domains, so that equal values recur within and across transactions:
+		// a value handed out from a shared table or a recycled buffer is then overwritten where a later delivery sees it
+		small := func(ty vh.Val, key string, uns bool, gen func(r *vh.Rng) vh.Val) {
+			t.cols = append(t.cols, colDef{ty: ty, key: key, uns: uns, nullable: true, field: fmt.Sprintf("v%d", len(t.cols)), gen: gen})
+		}
+		small(sym("tiny"), "tiny", true, func(r *vh.Rng) vh.Val { return sym("int", int64(r.Pick(0, 1, 42, 200))) })
+		small(sym("tiny"), "tiny", false, func(r *vh.Rng) vh.Val { return sym("int", int64(r.Pick(0, 1, 42, -3))) })
+		small(sym("enum", 1, 0), "enum", false, func(r *vh.Rng) vh.Val { return vh.L(vh.A("enum"), vh.U(uint64(r.Pick(1, 2, 3)))) })
+		small(sym("enum", 1, 1), "enum", false, func(r *vh.Rng) vh.Val { return vh.L(vh.A("enum"), vh.U(uint64(r.Pick(1, 2, 3)))) })
+		small(sym("year"), "year", false, func(r *vh.Rng) vh.Val { return sym("year", int64(r.Pick(0, 100, 120))) })
+		for _, kase := range []int{1, 3, 5, 6, 11, 12, 13, 14, 15} {
+			cd := genColumnCase(r, len(t.cols), kase)
+			cd.nullable, cd.field = true, fmt.Sprintf("v%d", len(t.cols))
+			t.cols = append(t.cols, cd)
+		}
 	}
 	// regenerate the rows with the new columns
 	for i := range h.events {
@@ -771,4 +792,32 @@ func provenanceCorrespondence(c *Ctx) {
 			}
 		}
 	}
+}
+
+// unknownTableRows: a well-formed rows event of the history re-addressed to a table id that no table map announced
+// (ids at the edges of the id space and ids that look like sentinels included).
+func unknownTableRows(c *Ctx, h *history) []byte {
+	r := c.Rng
+	for i := range h.events {
+		e := &h.events[i]
+		if e.kind != "rows" || len(e.rows.before)+len(e.rows.after) == 0 {
+			continue
+		}
+		ids := []uint64{0xffffff, 0x1ffffff, 0x2affffff, 0xffffffff, 0xfffffe, 0x1000000, 1, uint64(uint32(r.U64())) | 0xffffff, uint64(uint32(r.U64()))}
+		if !e.cfg.Tid4 {
+			ids = append(ids, 0xffffffffffff, 0x0300ffffff, r.U64()&0xffffffffffff)
+		}
+		t2 := *e.table
+		t2.id = ids[r.Intn(len(ids))]
+		for _, t := range h.tables {
+			if t.id == t2.id {
+				t2.id++
+			}
+		}
+		c.R.Dist[fmt.Sprintf("unknown-table-id/low24set%v", t2.id&0xffffff == 0xffffff)]++
+		resp := c.M.Call(mkEventReq(e.cfg, Hdr{TS: e.ts, SID: 7, Next: 0}, e.rows.bodyVal(t2), r.Bytes(4)))
+		b, _ := resp.Nth(0).Hex()
+		return b
+	}
+	return nil
 }
